@@ -215,6 +215,66 @@ def g_node(rng, depth, closed, width=6):
                  set().union({"trame"}, *[c.kinds for c in ch]))
     return g_comp(rng, depth, closed, width)
 
+def chain_fields(rng, fields, kinds, n, mk_target, force=None, tvals=None):
+    """appends n flag fields and a final target to `fields`.  Flag i carries a closure that (when its condition holds on
+    the flag's value) skips field i+1 -- which may itself be a flag: a SKIPPED flag is absent from the wire and its own
+    closure must not be consulted by write / length / read.  Variants: a flag naming ITSELF (no effect), a flag whose
+    closure would SIZE the next field (fixed-size block, so the field reads the same with or without the size).
+    force = per-flag booleans (condition satisfied on the written value), tvals = per-flag template-value satisfies?"""
+    names = [fresh(rng) for _ in range(n + 1)]
+    skip = set()
+    sized_len = None
+    for i in range(n):
+        kind = rng.choice(["u8", "u16l", "u32l"])
+        form = rng.random()
+        me, nxt = names[i], names[i + 1]
+        skipped_me = me in skip
+        if form < 0.12:
+            target_name, is_size = me, False          # names its own field
+        elif form < 0.27 and i == n - 1:
+            target_name, is_size = nxt, True          # would size the final target
+        else:
+            target_name, is_size = nxt, False
+        if is_size:
+            sized_len = rng.randrange(1, 7)
+            v = sized_len if (not skipped_me or rng.random() < 0.5) else rng.choice([0, 1, 9, 200])   # wrong size only where it is dead
+            tv = rng.choice([0, sized_len, 3])
+            w = "d(z%s~x;%s:%d)" % (target_name, kind, v); t = "d(z%s~x;%s:%d)" % (target_name, kind, tv)
+            fired = False
+        else:
+            want = force[i] if force else (rng.random() < 0.5)
+            twant = tvals[i] if tvals else (rng.random() < 0.5)
+            cond = rand_cond(rng)
+            v = tv = None
+            for _ in range(60):
+                c = pick_val(rng, kind)
+                if v is None and eval_cond(cond, c) == want: v = c
+                if tv is None and eval_cond(cond, c) == twant: tv = c
+                if v is not None and tv is not None: break
+            if v is None or tv is None:
+                cond = "b0.1.1"; v = (2 | (1 if want else 0)); tv = (4 | (1 if twant else 0))
+            w = "d(s%s~%s;%s:%d)" % (target_name, cond, kind, v); t = "d(s%s~%s;%s:%d)" % (target_name, cond, kind, tv)
+            fired = eval_cond(cond, v)
+        g = G(w, t, enc_num(kind, v), str(v), str(tv), WIDTH[kind], {"skipif", "chain%d" % n})
+        if skipped_me:
+            if rng.random() < 0.5: g = G(g.t, g.t, b"", g.td, g.td, g.mc, g.kinds)
+            else: _claim[0] = False
+            kinds |= {"skippedflag"}
+        elif fired and not is_size and target_name != me:
+            skip.add(target_name)
+        fields.append((me, g, skipped_me))
+    last = names[n]
+    if sized_len is not None:
+        target = g_fixed(rng, sized_len)
+    else:
+        target = mk_target()
+    skipped = last in skip
+    if skipped:
+        if rng.random() < 0.5: target = G(target.t, target.t, target.b, target.td, target.td, target.mc, target.kinds)
+        else: _claim[0] = False
+    fields.append((last, target, skipped))
+    kinds |= {"skipped" if skipped else "notskipped"}
+
 def g_comp(rng, depth, closed, width):
     """fields in groups: plain | size field .. sized target | flag field + skippable target"""
     groups = []
@@ -227,7 +287,9 @@ def g_comp(rng, depth, closed, width):
             between = 1 if (budget >= 3 and rng.random() < 0.3) else 0
             groups.append(("sized", between)); budget -= 2 + between
         else:
-            groups.append(("skip",)); budget -= 2
+            # a chain of 1-3 flag fields, each able to skip the next field, then a final target
+            n = 1 if budget < 3 else rng.choice([1, 1, 2, 2, 3]) if budget >= 4 else rng.choice([1, 2])
+            groups.append(("skip", n)); budget -= n + 1
     fields = []      # (name, G, skipped?)
     kinds = {"comp"}
     for gi, grp in enumerate(groups):
@@ -246,21 +308,7 @@ def g_comp(rng, depth, closed, width):
             fields.append((tname, target, False))
             kinds |= {"sized"}
         else:
-            tname = fresh(rng)
-            kind = rng.choice(["u8", "u16l", "u32l"]); v = pick_val(rng, kind)
-            cond = rand_cond(rng)
-            flag = G("d(s%s~%s;%s:%d)" % (tname, cond, kind, v), "d(s%s~%s;%s:0)" % (tname, cond, kind), enc_num(kind, v), str(v), "0", WIDTH[kind], {"skipif"})
-            fields.append((fresh(rng), flag, False))
-            skipped = eval_cond(cond, v)
-            target = g_node(rng, depth - 1, False, width)
-            if skipped:
-                if rng.random() < 0.5:
-                    # a skipped field keeps its template value: written tree = template there (hypothesis of read_write)
-                    target = G(target.t, target.t, target.b, target.td, target.td, target.mc, target.kinds)
-                else:
-                    _claim[0] = False      # written value differs from the template's: it is simply not transmitted
-            fields.append((tname, target, skipped))
-            kinds |= {"skipped" if skipped else "notskipped"}
+            chain_fields(rng, fields, kinds, grp[1], lambda: g_node(rng, depth - 1, False, width))
     w = "c(%s)" % ",".join("%s=%s" % (n, g.w) for (n, g, s) in fields)
     t = "c(%s)" % ",".join("%s=%s" % (n, g.t) for (n, g, s) in fields)
     b = b"".join(g.b for (n, g, s) in fields if not s)
@@ -288,6 +336,34 @@ def mutate_text(rng, w):
 
 def has_big_size(t):
     return bool(re.search(r"d\(z[^;]*;(u32|c\()", t))
+
+def chain_cases(tier, rng):
+    """systematic skip chains (both tiers): every combination of satisfied / unsatisfied conditions along a chain of
+    1-3 flag fields, on the WRITTEN value and on the TEMPLATE value, with self-naming and would-size closures mixed in;
+    a skipped flag is absent from the wire and must not influence write(), length() or read()"""
+    import itertools
+    out = []
+    reps = 3 if tier == "quick" else 40
+    for n in (1, 2, 3):
+        for force in itertools.product([False, True], repeat=n):
+            for tvals in itertools.product([False, True], repeat=n):
+                for _ in range(reps):
+                    _claim[0] = True
+                    fields = []; kinds = {"comp"}
+                    if rng.random() < 0.7: fields.append((fresh(rng), g_num(rng), False))
+                    chain_fields(rng, fields, kinds, n, lambda: g_leaf(rng, False), list(force), list(tvals))
+                    for _ in range(rng.choice([0, 1, 2])): fields.append((fresh(rng), g_leaf(rng, False), False))
+                    w = "c(%s)" % ",".join("%s=%s" % (nm, g.w) for (nm, g, sk) in fields)
+                    t = "c(%s)" % ",".join("%s=%s" % (nm, g.t) for (nm, g, sk) in fields)
+                    b = b"".join(g.b for (nm, g, sk) in fields if not sk)
+                    d = "{%s}" % ",".join("%s=%s" % (nm, g.td if sk else g.d) for (nm, g, sk) in fields)
+                    if rng.random() < 0.3:      # nested: the record is an element of a trame
+                        pre = g_num(rng)
+                        w, t, b, d = "t(%s,%s)" % (pre.w, w), "t(%s,%s)" % (pre.t, t), pre.b + b, "[%s,%s]" % (pre.d, d)
+                    rest = bytes(rng.randrange(256) for _ in range(rng.choice([0, 2])))
+                    exp = "len=%d w=%s r=ok consumed=%d val=%s" % (len(b), hx(b), len(b), d)
+                    out.append(("msg %s %s %s %s" % (w, t, hx(rest), "o" if _claim[0] else "-"), exp))
+    return out
 
 def msg_cases(tier, rng):
     n = 10000 if tier == "quick" else 1000000
@@ -604,6 +680,7 @@ EXTRA = [der_gcc_cases]
 def gen_cases(tier, rng):
     cases = per_cases(tier, rng)
     for f in EXTRA: cases += f(tier, rng)
+    cases += chain_cases(tier, rng)
     cases += msg_cases(tier, rng)
     return cases
 
